@@ -184,6 +184,21 @@ def r1_retransmission(ctx, F):
               bad='process_output: the sequencer/destination put on the wire and the one recorded in '
                   'msgs_pending_ack differ, or next_send_seq is incremented between them: an Ack then '
                   'retires the wrong message')
+    # ... and nowhere else: the sequencer only grows (a sequencer handed out twice makes the receiver, which
+    # remembers the last one it delivered per sender, drop the second message as a duplicate - while the sender
+    # sees it acknowledged)
+    elsewhere = []
+    for x in F.bodies.values():
+        if 'ordered_reliable_link' not in x.path:
+            continue
+        for (i, st_) in stores_to_field(x, 'next_send_seq'):
+            if not (x is po and i in incs):
+                elsewhere.append('%s@%s' % (x.path.split('::')[-1], st_.get('span', i)))
+    ctx.check(len(incs) == 1 and not elsewhere, rule, 'sequencer-only-grows', po,
+              good='next_send_seq is written only by the increment that follows a send',
+              bad='the link writes next_send_seq outside the increment after a send (%s): a sequencer can be handed '
+                  'out twice, and the receiver acknowledges the second message as a duplicate without handing it over'
+                  % sorted(set(elsewhere)))
     if len(incs) == 1:
         r = po.reach([snd[0].target] if snd else [], cut_blocks=incs)
         loop_heads = [c.bb for c in po.calls_to('Iterator::next')]
